@@ -754,8 +754,10 @@ where
         payload += S::payload(k);
         let hp = heap(&r);
         vassert!(hp.iter().all(|p| p.0 <= p.1), "VF:heap.used_exceeds_capacity");
+        // (the number of (used, capacity) pairs is not specified — a region may report one pair per allocation or one per
+        // field; what every branch must do is contribute, which the payload bound and the clear clause below observe)
         if storages > 0 {
-            vassert!(hp.len() == storages, "VF:heap.number_of_storages");
+            vassert!(!hp.is_empty(), "VF:heap.nothing_reported");
         }
         let used: usize = hp.iter().map(|p| p.0).sum();
         vassert!(used >= last_used, "VF:heap.used_decreased_on_push");
@@ -1161,18 +1163,56 @@ fn run_presize_forms(v: &[u64]) {
             let roomy = |x: &[u8]| { let mut o = Vec::with_capacity(x.len() + 37); o.extend_from_slice(x); o };
             form_case::<OwnedRegion<u8>>(v, |r, k| { let _ = r.push(roomy(&vecs[k])); }, |r, b| r.reserve_items(b.iter().map(|k| &vecs[*k])))
         }
-        _ => {
+        24 => {
             let nested: Vec<Vec<Vec<u8>>> = NESTED.iter().map(|x| x.iter().map(|y| y.to_vec()).collect()).collect();
             let roomy = |x: &Vec<Vec<u8>>| { let mut o = Vec::with_capacity(x.len() + 19); for y in x { let mut z = Vec::with_capacity(y.len() + 11); z.extend_from_slice(y); o.push(z); } o };
             form_case::<SliceRegion<OwnedRegion<u8>>>(v, |r, k| { let _ = r.push(roomy(&nested[k])); }, |r, b| r.reserve_items(b.iter().map(|k| &nested[*k])))
         }
+        // strings and tuples announced THROUGH an outer region: the inner `reserve_items` receives a flattened / filtered
+        // iterator whose size hint has a lower bound of 0 although it yields items
+        25 => {
+            let svecs: Vec<Vec<String>> = vec![vec![], vec!["a".into()], vec!["é𝄞".into(), "hello world".into()], vec!["".into(), "xyz".into(), "q".into()]];
+            form_case::<SliceRegion<StringRegion>>(v, |r, k| { let _ = r.push(&svecs[k]); }, |r, b| r.reserve_items(b.iter().map(|k| &svecs[*k])))
+        }
+        26 => {
+            static OPT_STR: [Option<&str>; 4] = [None, Some("abc"), Some(""), Some("hello world")];
+            form_case::<OptionRegion<StringRegion>>(v, |r, k| { let _ = r.push(OPT_STR[k]); }, |r, b| r.reserve_items(b.iter().map(|k| OPT_STR[*k])))
+        }
+        27 => {
+            static RES_STR: [Result<&str, &str>; 4] = [Ok("abc"), Err("hello world"), Err(""), Ok("é𝄞")];
+            form_case::<ResultRegion<StringRegion, StringRegion>>(v, |r, k| { let _ = r.push(RES_STR[k]); }, |r, b| r.reserve_items(b.iter().map(|k| RES_STR[*k])))
+        }
+        28 => {
+            let tvecs: Vec<Vec<([u8; 2], String)>> = vec![vec![], vec![([1, 2], "a".into())], vec![([3, 4], "hello world".into()), ([5, 6], "é".into())], vec![([7, 8], String::new()), ([9, 9], "xyz".into()), ([0, 0], "q".into())]];
+            form_case::<SliceRegion<TupleABRegion<OwnedRegion<u8>, StringRegion>>>(v, |r, k| { let _ = r.push(&tvecs[k]); }, |r, b| r.reserve_items(b.iter().map(|k| &tvecs[*k])))
+        }
+        29 => {
+            let otup: Vec<Option<([u8; 2], String)>> = vec![None, Some(([1, 2], "hello world".into())), Some(([3, 4], String::new())), Some(([5, 6], "é𝄞".into()))];
+            form_case::<OptionRegion<TupleABRegion<OwnedRegion<u8>, StringRegion>>>(v, |r, k| { let _ = r.push(&otup[k]); }, |r, b| r.reserve_items(b.iter().map(|k| &otup[*k])))
+        }
+        _ => {
+            // through FlatStack::reserve_items, announced by an iterator without an exact size (a filter that keeps everything)
+            let batch: Vec<usize> = v[1..4].iter().take(v[4] as usize).map(|k| *k as usize).collect();
+            let mut fs = FlatStack::<StringRegion>::default();
+            for _ in 0..(v[5] as usize * v[5] as usize) {
+                fs.copy(STRS[2]);
+            }
+            fs.reserve(batch.len());
+            fs.reserve_items(batch.iter().map(|k| STRS[*k]).filter(|s| s.len() < 1000));
+            let fcaps = |fs: &FlatStack<StringRegion>| -> Vec<usize> { collect_heap(|cb| fs.heap_size(cb)).iter().map(|p| p.1).collect() };
+            let before = fcaps(&fs);
+            for k in &batch {
+                fs.copy(STRS[*k]);
+                vassert!(fcaps(&fs) == before, "VF:presize.forms.capacity_changed_while_absorbing_announced_items");
+            }
+        }
     }
 }
 fn pre_presize_forms(v: &[u64]) -> bool {
-    v[0] < 25 && v[1] < 4 && v[2] < 4 && v[3] < 4 && v[4] < 4 && v[5] < 5
+    v[0] < 31 && v[1] < 4 && v[2] < 4 && v[3] < 4 && v[4] < 4 && v[5] < 5
 }
 fn doms_presize_forms() -> Vec<Vec<u64>> {
-    vec![range(25), range(4), range(4), range(4), range(4), range(5)]
+    vec![range(31), range(4), range(4), range(4), range(4), range(5)]
 }
 
 // C17 clause 2 over further input forms and non-coded compositions (the iterator / array / reference-to-reference forms
@@ -1289,7 +1329,7 @@ pub fn harnesses_alloc() -> Vec<H> {
     vec![H { name: "heap_big_clear", props: &["C18"], nargs: 3, pre: pre_big_clear, doms: doms_big_clear, run: run_big_clear, panic_ok: false,
         bound: "17 compositions; 300 / 1100 / 2100 / 4200 pushes alternating two pool values, then clear: same number of (used, capacity) pairs, no capacity smaller than before", kani: false },
     H { name: "presize_forms", props: &["C17"], nargs: 6, pre: pre_presize_forms, doms: doms_presize_forms, run: run_presize_forms, panic_ok: false,
-        bound: "25 (region, ReserveItems form) pairs (six of them announced by reference and pushed in the owned Vec / array / String form, two with owned vectors that carry spare capacity): OwnedRegion (&[T;N], &[T], &Vec<T>, PushIter), StringRegion (&String, &str, &&str), SliceRegion<OwnedRegion> (&[T], &Vec<T>, &[T;N], read items), OptionRegion / ResultRegion / tuple (owned and by reference), Vec<T>, SliceRegion<MirrorRegion>; batch of 0..3 items from a pool of 4; target empty / one item / filled until 0..2 spare bytes; reserve_items(batch) then pushing the batch in the same form: every capacity constant", kani: false },
+        bound: "31 (region, ReserveItems form) pairs (incl. strings and tuples announced through an enclosing slice / option / result region, and FlatStack::reserve_items fed by a filtered iterator) (six of them announced by reference and pushed in the owned Vec / array / String form, two with owned vectors that carry spare capacity): OwnedRegion (&[T;N], &[T], &Vec<T>, PushIter), StringRegion (&String, &str, &&str), SliceRegion<OwnedRegion> (&[T], &Vec<T>, &[T;N], read items), OptionRegion / ResultRegion / tuple (owned and by reference), Vec<T>, SliceRegion<MirrorRegion>; batch of 0..3 items from a pool of 4; target empty / one item / filled until 0..2 spare bytes; reserve_items(batch) then pushing the batch in the same form: every capacity constant", kani: false },
     H { name: "alloc_forms", props: &["C17"], nargs: 2, pre: pre_alloc_forms, doms: doms_alloc_forms, run: run_alloc_forms, panic_ok: false,
         bound: "23 (composition, input form) pairs beyond the slice form (incl. read items of another slice / columns region and of a FlatStack replayed): OwnedRegion via [T;N], &[T;N], &&[T;N], PushIter, &&[T]; SliceRegion via arrays; StringRegion via &&str; ColumnsRegion (mirror and string columns) via slice / array / PushIter rows; ConsecutiveIndexPairs, CollapseSequence, FlatStack (Vec and IndexOptimized offsets), SliceRegion over consecutive pairs; n = 2^6 .. 2^14 pushes without pre-sizing: at most storages x (log2(elements)+2) allocator calls", kani: false },
     H { name: "alloc_discipline", props: &["C17"], nargs: 6, pre: pre_alloc, doms: doms_alloc, run: run_alloc, panic_ok: false,
